@@ -1150,15 +1150,14 @@ class Columns(Widget, WidgetContainerMixin, WidgetContainerListContentsMixin):
         if hasattr(w, "get_pref_col"):
             col = w.get_pref_col(size_args[self.focus_position])
             if isinstance(col, int):
-                col += self.focus_position * self.dividechars
-                col += sum(widths[: self.focus_position])
+                # hidden (zero width) columns are not drawn and take no divider (see render)
+                col += sum(self.dividechars + wc for wc in widths[: self.focus_position] if wc > 0)
         if col is None:
             col = self.pref_col
 
         if col is None and w.selectable():
             col = cwidth // 2
-            col += self.focus_position * self.dividechars
-            col += sum(widths[: self.focus_position])
+            col += sum(self.dividechars + wc for wc in widths[: self.focus_position] if wc > 0)
         return col
 
     def rows(self, size: tuple[int] | tuple[int, int], focus: bool = False) -> int:
